@@ -114,7 +114,7 @@ pub fn with_histories(scn: &mut Scenario, rng: &mut Xo, max_iters: u64, second: 
     let it = |rng: &mut Xo| gen::affordable_iters(&pl, l, ext, 1 + rng.below(max_iters));
     let prm = scn.planner.kind == PlannerKind::PRM;
     let calls: Vec<CallSpec> = if prm {
-        match rng.below(8) {
+        match rng.below(10) {
             0 => vec![CallSpec::Setup { problem: 0 }, gen::construct_call(it(rng)), solve_budget(1), CallSpec::SetProblem { problem: 1 }, solve_budget(1)],
             1 => vec![CallSpec::Setup { problem: 0 }, gen::construct_call(it(rng)), CallSpec::SetProblem { problem: 1 }, solve_budget(1)],
             2 => vec![CallSpec::Setup { problem: 0 }, gen::construct_call(it(rng)), CallSpec::Setup { problem: 1 }, gen::construct_call(it(rng)), solve_budget(1)],
@@ -128,6 +128,22 @@ pub fn with_histories(scn: &mut Scenario, rng: &mut Xo, max_iters: u64, second: 
                 let mut v = vec![CallSpec::Setup { problem: 0 }, gen::construct_call(a), solve_budget(1), CallSpec::Setup { problem: second }, gen::construct_call(if rng.chance(0.5) { a } else { b }), solve_budget(1)];
                 if rng.chance(0.3) {
                     v.push(CallSpec::SetProblem { problem: 1 - second });
+                    v.push(solve_budget(1));
+                }
+                v
+            }
+            // a query that times out in the graph search (time limit 0), then the problem is
+            // replaced and queried again: whatever the interrupted query left in the roadmap
+            8 | 9 => {
+                let zero = CallSpec::Solve { timeout_ns: 0, stalls: vec![] };
+                let mut v = vec![CallSpec::Setup { problem: 0 }, gen::construct_call(it(rng)), zero.clone(), CallSpec::SetProblem { problem: 1 }];
+                if rng.chance(0.4) {
+                    v.push(zero.clone());
+                    v.push(CallSpec::SetProblem { problem: 0 });
+                }
+                v.push(solve_budget(1));
+                if rng.chance(0.5) {
+                    v.push(CallSpec::SetProblem { problem: if rng.chance(0.5) { 0 } else { 1 } });
                     v.push(solve_budget(1));
                 }
                 v
@@ -193,9 +209,9 @@ pub fn ultra_fine(prop: &'static str, seed: u64, index: u64) -> Scenario {
 /// against the direction they were checked in). End points exactly half a turn apart — where the
 /// shortest path is not unique and only the space's interpolation says which way round a
 /// motion goes — are then frequent.
-pub fn so2_lattice(prop: &'static str, seed: u64, index: u64) -> Scenario {
+pub fn so2_lattice(prop: &'static str, seed: u64, index: u64, kinds: &[PlannerKind]) -> Scenario {
     let mut rng2 = Xo::new(mix(seed, "so2-lattice", index));
-    let kind = *rng2.pick(&[PlannerKind::RRTConnect, PlannerKind::PRM]);
+    let kind = *rng2.pick(kinds);
     let o2 = GenOpts { planner: Some(kind), families: vec!["open"], space_kinds: vec!["SO2"], max_iters: 4, min_frac: 0.05, goal_sampler: Some(GoalSampler::Fixed), canonical_only: true, library_metric: true, ..Default::default() };
     let mut scn = gen::base(&mut rng2, prop, seed, index, &o2);
     scn.space = SpaceSpec::SO2 { bounds: None, frac: 0.05 };
@@ -213,6 +229,10 @@ pub fn so2_lattice(prop: &'static str, seed: u64, index: u64) -> Scenario {
     // one forbidden arc between two lattice points, so that paths take several hops
     let c = *rng2.pick(&lattice) + std::f64::consts::PI / 8.0;
     scn.worlds[0].obstacles = vec![Obstacle::Ball { c: vec![c], r: 0.2 }];
+    if rng2.chance(0.4) {
+        let c2 = *rng2.pick(&lattice) + std::f64::consts::PI / 8.0;
+        scn.worlds[0].obstacles.push(Obstacle::Ball { c: vec![c2], r: 0.2 });
+    }
     scn.planner.max_distance = 4.0;
     scn.planner.search_radius = 4.0;
     scn.planner.connection_radius = 4.0;
@@ -250,7 +270,14 @@ fn harvest(prop: &'static str, seed: u64, index: u64, tier: Tier, families: &[&'
     let n = gen::affordable_iters_b(&scn.planner, l, ext, want, if prop == "C03" { 6.0e5 } else { 1.0e6 });
     scn.calls = vec![CallSpec::Setup { problem: 0 }];
     for _ in 0..n {
-        scn.calls.push(solve_budget(8));
+        // a third of the solves have their deadline pass INSIDE an iteration (during some
+        // validity query of the extension, choose-parent or rewire phase): the iteration must
+        // still be completed or not have happened
+        if rng2.chance(0.33) {
+            scn.calls.push(CallSpec::Solve { timeout_ns: 1_000_000_000_000, stalls: vec![Stall { at: Phase::Valid, nth: 1 + rng2.below(40), ns: STALL_NS }, Stall { at: Phase::Sample, nth: 8, ns: STALL_NS }] });
+        } else {
+            scn.calls.push(solve_budget(8));
+        }
     }
     scn.params.insert("harvest".into(), 1.0);
     scn.family = format!("harvest/{}", scn.family);
@@ -382,7 +409,7 @@ impl Check for PathProp {
             return ultra_fine(self.id, seed, index);
         }
         if self.id == "C03" && index % 50 == 23 {
-            return so2_lattice(self.id, seed, index);
+            return so2_lattice(self.id, seed, index, &[PlannerKind::RRTConnect, PlannerKind::PRM]);
         }
         if (matches!(self.id, "C01" | "C04" | "C05") && index % 16 == 9) || (self.id == "C03" && index % 64 == 9) {
             // PRM harvest (see evaluate): setup, construct, solve; the queries for every
@@ -463,6 +490,27 @@ impl Check for PathProp {
             "C03" if index % 6 == 5 => {
                 // re-setup histories: the second problem may come with a finer or coarser space
                 with_histories(&mut scn, &mut rng, o.max_iters.min(100), &["thin_wall", "thin_wall", "slivers", "slivers", "shell_door", "balls"], false);
+            }
+            "C04" if index % 24 == 13 => {
+                // PRM: setup(P0), set_problem_definition(P1 over its own, tighter space), THEN the
+                // roadmap is constructed: it must be sampled in the installed problem's space
+                let mut rng2 = Xo::new(mix(seed, "C04-prm-space", index));
+                let mut o2 = self.opts(&mut rng2, tier);
+                o2.planner = Some(PlannerKind::PRM);
+                o2.max_iters = 80;
+                o2.query_budget = 2e5;
+                scn = gen::base(&mut rng2, self.id, seed, index, &o2);
+                let same_start = rng2.chance(0.5);
+                second_problem_same_world_v(&mut scn, &mut rng2, false, true, same_start);
+                let n = match &scn.calls[1] {
+                    CallSpec::Construct { stalls } => stalls[0].nth,
+                    _ => 20,
+                };
+                scn.calls = vec![CallSpec::Setup { problem: 0 }, CallSpec::SetProblem { problem: 1 }, gen::construct_call(n), solve_budget(1)];
+                let ext = scn.param("ext").unwrap_or(1.0);
+                scn.planner.connection_radius = ext * rng2.range(0.2, 0.6);
+                scn.problems[1].goal.radius = scn.problems[1].goal.radius.max(0.15 * ext);
+                scn.family = format!("prm_space_replaced_before_construction/{}", scn.family);
             }
             "C04" if index % 3 == 2 => {
                 // re-setup histories: tighter bounds on the second problem
